@@ -57,72 +57,143 @@ def _strip(t):
     return t
 
 
+def _single_defs(f):
+    defs = {}
+    for b, i, e in f.events():
+        if e.get('k') == 'decl':
+            for v in e.get('vars', []):
+                defs.setdefault(v['id'], []).append(v.get('init'))
+        elif e.get('k') == 'asg' and isinstance(e.get('l'), dict) and e['l'].get('k') == 'var' and 'id' in e['l']:
+            defs.setdefault(e['l']['id'], []).append(None)
+    return {k: v[0] for k, v in defs.items() if len(v) == 1 and v[0] is not None}
+
+
+def _inline(t, sd, keep, depth=0):
+    """Replace single-definition locals (other than `keep`) by their initialisers."""
+    if isinstance(t, list):
+        return [_inline(x, sd, keep, depth) for x in t]
+    if not isinstance(t, dict):
+        return t
+    if t.get('k') == 'var' and 'cv' not in t and t.get('id') in sd and t.get('id') not in keep and depth < 8:
+        return _inline(sd[t['id']], sd, keep, depth + 1)
+    return {k: (_inline(v, sd, keep, depth) if isinstance(v, (dict, list)) else v) for k, v in t.items()}
+
+
+def _roles(ct):
+    """Locals of computeTimeLimit by what they are, not by what they are called."""
+    decls = {}
+    for b, i, e in ct.events():
+        if e.get('k') == 'decl':
+            for v in e.get('vars', []):
+                decls[v['id']] = (b, i, v)
+
+    def members(t):
+        return [n.get('f', '').split('::')[-1] for n in walk(t) if n.get('k') == 'mem']
+    roles = {}
+    for vid, (b, i, v) in decls.items():
+        init = _strip(v.get('init'))
+        if not isinstance(init, dict):
+            continue
+        if init.get('k') == 'cond':
+            a, b_ = members(init['a']), members(init['b'])
+            if a == ['wTime'] and b_ == ['bTime']:
+                roles['time'] = v
+            elif a == ['bTime'] and b_ == ['wTime']:
+                roles['oTime'] = v
+            elif a == ['wInc'] and b_ == ['bInc']:
+                roles['inc'] = v
+            elif a == ['bInc'] and b_ == ['wInc']:
+                roles['oInc'] = v
+        if members(init) == ['movesToGo']:
+            roles['moves'] = v
+    for vid, (b, i, v) in decls.items():
+        init = _strip(v.get('init'))
+        if isinstance(init, dict) and init.get('k') == 'call' and cname(init) == 'std::min' and 'time' in roles and \
+                any(n.get('k') == 'var' and n.get('id') == roles['time']['id'] for n in walk(init)) and v is not roles.get('time') and 'margin' not in roles and \
+                not any(n.get('k') == 'var' and n.get('id') == (roles.get('moves') or {}).get('id') for n in walk(init)):
+            roles['margin'] = v
+    for vid, (b, i, v) in decls.items():
+        init = v.get('init')
+        if isinstance(init, dict) and all(r_ in roles for r_ in ('time', 'inc', 'moves', 'margin')) and v['id'] not in {x['id'] for x in roles.values()} and \
+                {roles[r_]['id'] for r_ in ('time', 'inc', 'moves', 'margin')} <= {n.get('id') for n in walk(init) if n.get('k') == 'var'} and (v.get('t') or '').replace('const ', '') == 'int':
+            roles.setdefault('timeLimit', v)
+    return roles
+
+
 def c1_arith(fb, rep):
     clause = 'C06.1'
     ct = fb.find1('EngineControl::computeTimeLimit')
     if rep.need(clause, ct, 'EngineControl::computeTimeLimit') is None:
         return
-    decls = {}
-    for b, i, e in ct.events():
-        if e.get('k') == 'decl':
-            for v in e.get('vars', []):
-                decls[v['n']] = (b, i, v)
-    env = dict(DOMAIN)
+    roles = _roles(ct)
+    for r_ in ('time', 'inc', 'moves', 'margin', 'timeLimit'):
+        if rep.need(clause, roles.get(r_), 'the local of computeTimeLimit that holds the %s' % {
+                'time': "mover's remaining time (white ? wTime : bTime)", 'inc': "mover's increment", 'moves': 'moves to go',
+                'margin': 'safety margin min(BufferTime, f(time))', 'timeLimit': 'per-move allocation'}[r_]) is None:
+            return
+    nm = {r_: v['n'] for r_, v in roles.items()}
+    rid = {r_: v['id'] for r_, v in roles.items()}
+    env = {nm[r_]: DOMAIN[r_] for r_ in ('time', 'inc', 'oTime', 'oInc') if r_ in nm}
     for p in ('bufferTime', 'maxTimeUsage', 'timeMaxRemainingMoves', 'timePonderHitRate', 'minTimeUsage'):
         bd = param_bounds(fb, p)
         if rep.need(clause, bd, 'Param<> bounds of ' + p) is None:
             return
         env[p] = bd
     rep.extra['parameter_ranges'] = {k: list(v) for k, v in env.items()}
-    # clamp lemma: body of clamp is min(max(val, min), max)
+    rep.extra['roles_in_computeTimeLimit'] = nm
+    # clamp lemma: body of clamp is min(max(val, lo), hi) over its three parameters in order
     cl = [f for f in fb.find('clamp') if f.has_cfg]
     ok = False
     for f in cl:
+        ps = [p_['id'] for p_ in f.d.get('params', [])]
         for b, i, e in f.events():
-            if e.get('k') == 'ret':
+            if e.get('k') == 'ret' and len(ps) == 3:
                 r = _strip(e.get('e'))
                 if isinstance(r, dict) and r.get('k') == 'call' and cname(r) == 'std::min':
                     a0 = _strip(r['args'][0])
                     if isinstance(a0, dict) and a0.get('k') == 'call' and cname(a0) == 'std::max' and \
-                            [(_strip(x) or {}).get('n') for x in a0['args']] == ['val', 'min'] and (_strip(r['args'][1]) or {}).get('n') == 'max':
+                            [(_strip(x) or {}).get('id') for x in a0['args']] == ps[:2] and (_strip(r['args'][1]) or {}).get('id') == ps[2]:
                         ok = True
     rep.ob(clause, 'K12 lemma', 'clamp(val, min, max) is min(max(val, min), max)', ok, cl[0].where if cl else '', '', 'clamp')
-    # margin
-    if rep.need(clause, decls.get('margin'), 'local `margin` in computeTimeLimit') is None:
-        return
-    margin = decls['margin'][2].get('init')
+    margin = roles['margin'].get('init')
     m0 = _strip(margin)
-    okm = isinstance(m0, dict) and m0.get('k') == 'call' and cname(m0) == 'std::min' and 'bufferTime' in show(m0['args'][0]) and 'time' in show(m0['args'][1])
-    rep.ob(clause, 'K15 provenance', 'margin = min(BufferTime, f(time))', okm, R.site(ct, {'ln': decls['margin'][2].get('ln')}) if False else ct.where, show(margin), ct.sname)
+    okm = isinstance(m0, dict) and m0.get('k') == 'call' and cname(m0) == 'std::min' and any('bufferTime' in show(a) for a in m0['args'])
+    rep.ob(clause, 'K15 provenance', 'margin = min(BufferTime, f(time))', okm, ct.where, show(margin), ct.sname)
     # final definitions of the two limits on the clock path
     finals = {}
     for b, i, e in ct.events():
         if e.get('k') == 'asg' and e.get('op') == '=' and ap(e.get('l')) in ('this.minTimeLimit', 'this.maxTimeLimit'):
             r = _strip(e.get('r'))
             if isinstance(r, dict) and r.get('k') == 'call' and cname(r) == 'clamp':
+                r = dict(r, args=[_inline(a_, _single_defs(ct), {rid['time'], rid['margin']}) for a_ in r['args']])
                 finals[ap(e['l'])[5:]] = (b, i, e, r)
+
+    def is_budget(t):
+        """`time - margin`, possibly protected as max(1, time - margin)."""
+        t = _strip(t)
+        if isinstance(t, dict) and t.get('k') == 'call' and cname(t) == 'std::max' and len(t.get('args', [])) == 2:
+            return any(is_budget(a) for a in t['args'])
+        return isinstance(t, dict) and t.get('k') == 'bin' and t.get('op') == '-' and (_strip(t['l']) or {}).get('id') == rid['time'] and (_strip(t['r']) or {}).get('id') == rid['margin']
     for fld in ('minTimeLimit', 'maxTimeLimit'):
         if rep.need(clause, finals.get(fld), 'clamp(...) definition of ' + fld) is None:
             return
         b, i, e, r = finals[fld]
         a = r['args']
-        shape = ap(_strip(a[0])) == 'this.' + fld and (_strip(a[1]) or {}).get('cv') == 1 and show(_strip(a[2])) == '(time - margin)'
+        shape = ap(_strip(a[0])) == 'this.' + fld and (_strip(a[1]) or {}).get('cv') == 1 and is_budget(a[2])
         rep.ob(clause, 'K15 provenance', 'clock path: %s is finally clamp(%s, 1, time - margin)' % (fld, fld), shape, R.site(ct, e), show(r), ct.sname)
-        # it is the last write on the clock path: no later write reaches the exit
         later = ct.path_avoiding((b, i), lambda ev, _f=fld: ev is not None and ev.get('k') == 'asg' and ap(ev.get('l')) == 'this.' + _f, R.never)
         rep.ob(clause, 'K15 provenance', 'clock path: no later write to %s follows the clamp' % fld, later is None, R.site(ct, e), '', ct.sname)
-    # time - margin >= 1 over the domain (interval engine with subdivision)
-    bound_tree = _strip(finals['minTimeLimit'][3]['args'][2])
-    # substitute margin by its defining expression
+    bound_tree = next((n_ for n_ in walk(finals['minTimeLimit'][3]['args'][2]) if n_.get('k') == 'bin' and is_budget(n_)), _strip(finals['minTimeLimit'][3]['args'][2]))
+
     def subst(t):
-        if isinstance(t, dict) and t.get('k') == 'var' and t.get('n') == 'margin':
+        if isinstance(t, dict) and t.get('k') == 'var' and t.get('id') == rid['margin']:
             return margin
         if isinstance(t, dict):
             return {k: (subst(v) if isinstance(v, dict) else ([subst(x) for x in v] if isinstance(v, list) else v)) for k, v in t.items()}
         return t
     tree = subst(bound_tree)
     try:
-        okb, info = prove_lower(tree, env, 'time', 1)
+        okb, info = prove_lower(tree, env, nm['time'], 1)
         rep.ob(clause, 'K12 range', 'time - min(BufferTime, time*9/10) >= 1 for every time in 1..10^7 and BufferTime in %s' % (list(env['bufferTime']),), okb,
                ct.where, ('%d interval boxes' % info) if okb else 'fails for time=%s (value interval %s)' % (info[0], info[1]), ct.sname)
         rep.extra['interval_boxes_time_minus_margin'] = info if okb else None
@@ -141,33 +212,31 @@ def c1_arith(fb, rep):
         base_ok = ap(lhs) == 'this.minTimeLimit'
         try:
             envf = dict(env)
-            envf['moves'] = (1, max(env['timeMaxRemainingMoves'][1], 999))
+            envf[nm['moves']] = (1, max(env['timeMaxRemainingMoves'][1], 999))
             flo, fhi = ieval(_strip(r.get('r')), envf)
             rep.ob(clause, 'K12 range', 'hard limit = soft limit x factor with factor >= 1 over the declared parameter ranges', base_ok and flo >= 1.0, R.site(ct, e),
                    'factor %s in [%s, %s]' % (show(r.get('r')), flo, fhi), ct.sname)
         except Undecided as ex:
             rep.broken(clause, 'interval engine (factor): %s' % ex)
-        # the scaling precedes both clamps and follows the last pre-clamp write to the soft limit
         okord = ct.pos_dominates((b, i), (finals['minTimeLimit'][0], finals['minTimeLimit'][1])) and ct.pos_dominates((b, i), (finals['maxTimeLimit'][0], finals['maxTimeLimit'][1]))
         pre = ct.path_avoiding((b, i), lambda ev: ev is not None and ev.get('k') == 'asg' and ap(ev.get('l')) == 'this.minTimeLimit' and ev is not finals['minTimeLimit'][2], R.never)
         rep.ob(clause, 'K15 provenance', 'the scaling uses the final pre-clamp soft limit and precedes both clamps', okord and pre is None, R.site(ct, e), '', ct.sname)
     # allocation formula stays inside int
-    tl = decls.get('timeLimit')
-    if rep.need(clause, tl, 'local `timeLimit`') is not None:
-        try:
-            envo = dict(env)
-            envo['moves'] = (1, 999)
-            envo['margin'] = (0, env['bufferTime'][1])
-            mx = 0
-            for n in walk(tl[2].get('init')):
-                if n.get('k') == 'bin' and n.get('t') == 'int':
-                    lo, hi = ieval(n, envo)
-                    mx = max(mx, abs(lo), abs(hi))
-            rep.ob(clause, 'K12 range', 'time + inc*(moves-1) - margin stays inside int over the stated ranges', 0 < mx < 2 ** 31, ct.where, 'largest intermediate magnitude %d' % mx, ct.sname)
-        except Undecided as ex:
-            rep.broken(clause, 'interval engine (allocation formula): %s' % ex)
+    tl = roles['timeLimit']
+    try:
+        envo = dict(env)
+        envo[nm['moves']] = (1, 999)
+        envo[nm['margin']] = (0, env['bufferTime'][1])
+        mx = 0
+        for n in walk(tl.get('init')):
+            if n.get('k') == 'bin' and n.get('t') == 'int':
+                lo, hi = ieval(n, envo)
+                mx = max(mx, abs(lo), abs(hi))
+        rep.ob(clause, 'K12 range', 'time + inc*(moves-1) - margin stays inside int over the stated ranges', 0 < mx < 2 ** 31, ct.where, 'largest intermediate magnitude %d' % mx, ct.sname)
+    except Undecided as ex:
+        rep.broken(clause, 'interval engine (allocation formula): %s' % ex)
     # moves is at least 1 when it divides
-    mv = [e for _, _, e in ct.events() if e.get('k') == 'asg' and isinstance(e.get('l'), dict) and e['l'].get('n') == 'moves']
+    mv = [e for _, _, e in ct.events() if e.get('k') == 'asg' and isinstance(e.get('l'), dict) and e['l'].get('id') == rid['moves']]
     zero_fix = any((e.get('r') or {}).get('cv') == 999 for e in mv)
     rep.ob(clause, 'K12 range', 'movestogo 0 is replaced before it is used as a divisor', zero_fix, ct.where, '', ct.sname)
     # movetime path
@@ -181,12 +250,15 @@ def c1_arith(fb, rep):
     # the single-legal-move clamp keeps 1 <= soft, hard
     st = fb.find1('EngineControl::startThread')
     if rep.need(clause, st, 'EngineControl::startThread'):
-        cl2 = [e for _, _, e in st.events() if e.get('k') == 'asg' and isinstance(e.get('l'), dict) and e['l'].get('n') in ('minTimeLimit', 'maxTimeLimit') and
+        cl2 = [e for _, _, e in st.events() if e.get('k') == 'asg' and isinstance(e.get('l'), dict) and e['l'].get('k') == 'var' and
                isinstance(_strip(e.get('r')), dict) and cname(_strip(e.get('r'))) == 'clamp']
+
+        def scaled_self(e):
+            a0 = _strip(_strip(e['r'])['args'][0])
+            return isinstance(a0, dict) and a0.get('k') == 'bin' and a0.get('op') == '/' and (_strip(a0['l']) or {}).get('id') == e['l'].get('id') and (_strip(a0['r']) or {}).get('cv') == 100
         shapes = sorted(show(_strip(e.get('r'))) for e in cl2)
         ok = len(cl2) == 2 and all((_strip(_strip(e['r'])['args'][1]) or {}).get('cv') == 1 for e in cl2) and \
-            len({show(_strip(e['r'])['args'][2]) for e in cl2}) == 1 and \
-            {show(_strip(_strip(e['r'])['args'][0])) for e in cl2} == {'(minTimeLimit / 100)', '(maxTimeLimit / 100)'}
+            len({show(_strip(e['r'])['args'][2]) for e in cl2}) == 1 and all(scaled_self(e) for e in cl2) and len({e['l'].get('id') for e in cl2}) == 2
         rep.ob(clause, 'K12 range', 'single-legal-move clamp scales both limits the same way into [1, const]', ok, st.where, str(shapes), st.sname)
 
 
@@ -334,34 +406,6 @@ def c3_polling(fb, rep):
         rep.ob(clause, 'K12 range', 'the poll interval is between 1 and 1000 nodes', ok, ss.where, 'constants %s, clamps %d' % (consts, len(clamps)), ss.sname)
     sh = fb.find1('Search::shouldStop')
     if rep.need(clause, sh, 'Search::shouldStop'):
-        tl = None
-        for b, i, e in sh.events():
-            if e.get('k') == 'decl':
-                for v in e.get('vars', []):
-                    if v.get('n') == 'timeLimit':
-                        tl = v.get('init')
-        t0 = _strip(tl)
-        oksel = isinstance(t0, dict) and t0.get('k') == 'cond' and ap(_strip(t0.get('c'))) == 'this.searchNeedMoreTime' and (_strip(t0.get('a')) or {}).get('n') == 'maxT' and (_strip(t0.get('b')) or {}).get('n') == 'minT'
-        rep.ob(clause, 'K15 provenance', 'shouldStop selects the hard limit when more time is needed, else the soft limit', oksel, sh.where, show(tl) if tl else '', sh.sname)
-        # return true is reachable only through (elapsed >= timeLimit) or the node limit
-        conds = []
-        for b, i, e in sh.events():
-            if e.get('k') == 'ret' and (e.get('e') or {}).get('cv') == 1:
-                # the if statement whose true side is this return (the condition is a short-circuit expression)
-                for bid, blk in sh.blocks.items():
-                    t = blk.get('term')
-                    if t and t.get('c') == 'IfStmt' and blk['succ'] and blk['succ'][0] == b and t.get('cond'):
-                        conds.append(show(t['cond'], 600))
-        okc = any('((tNow - tStart) >= timeLimit)' in c and '(timeLimit >= 0)' in c for c in conds)
-        rep.ob(clause, 'K4 guard', 'shouldStop answers true when elapsed >= the selected limit', okc, sh.where, 'guards of `return true`: %s' % conds, sh.sname)
-        src = {}
-        for b, i, e in sh.events():
-            if e.get('k') == 'decl':
-                for v in e.get('vars', []):
-                    if v.get('n') in ('maxT', 'minT'):
-                        src[v['n']] = show(v.get('init'))
-        okr = 'maxTimeMillis' in src.get('maxT', '') and 'minTimeMillis' in src.get('minT', '')
-        rep.ob(clause, 'K15 provenance', 'shouldStop reads the shared (RelaxedShared) limits afresh on every poll', okr, sh.where, str(src), sh.sname)
         _limit_bounded(fb, rep, clause, sh)
 
 
@@ -428,3 +472,87 @@ def _limit_bounded(fb, rep, clause, sh):
                 bad.append(show(t, 300))
         rep.ob(clause, 'K12 bound', 'shouldStop: the limit the elapsed time is compared with never exceeds the hard limit', not bad, '%s:%s' % (sh.file, sh.blocks[bid]['term'].get('ln')),
                'unbounded on some path: %s' % bad[0] if bad else '%d path class(es): hard limit, soft limit, or min(..., hard)' % len(stores), sh.sname)
+        # selection: with searchNeedMoreTime set the limit is the hard limit itself, otherwise a soft-derived value
+        oksel = bool(stores)
+        fresh = True
+        for store, _ in stores:
+            t = _strip(B.subst(lim, store))
+            while isinstance(t, dict) and t.get('k') == 'ctor' and len(t.get('args', [])) == 1:
+                t = _strip(t['args'][0])
+            if not (isinstance(t, dict) and t.get('k') == 'cond' and any(ap(x) == 'this.searchNeedMoreTime' for x in walk(t.get('c')))):
+                oksel = False
+                continue
+            a_paths = {ap(x) for x in walk(t['a']) if x.get('k') == 'mem'}
+            b_paths = {ap(x) for x in walk(t['b']) if x.get('k') == 'mem'}
+            if 'this.maxTimeMillis' not in a_paths or 'this.minTimeMillis' in a_paths or 'this.minTimeMillis' not in b_paths:
+                oksel = False
+            if not ({'this.maxTimeMillis', 'this.minTimeMillis'} <= (a_paths | b_paths)):
+                fresh = False
+        rep.ob(clause, 'K15 provenance', 'shouldStop selects the hard limit when more time is needed, else the soft limit', oksel, sh.where, '', sh.sname)
+        rep.ob(clause, 'K15 provenance', 'shouldStop reads the shared (RelaxedShared) limits afresh on every poll', fresh and bool(stores), sh.where, '', sh.sname)
+        # `return true` is reached through (limit >= 0 && elapsed >= limit)
+        limv = _strip(lim)
+        okc = False
+        for b2, blk in sh.blocks.items():
+            t = blk.get('term') or {}
+            c = t.get('cond')
+            if c is None or t.get('c') != 'IfStmt' or not blk['succ']:
+                continue
+            tgt = blk['succ'][0]
+            rets = [e for e in sh.blocks[tgt]['ev'] if e.get('k') == 'ret' and (e.get('e') or {}).get('cv') == 1]
+            if not rets:
+                continue
+            has_cmp = any(x is n or show(x, 300) == show(n, 300) for x in walk(c))
+            has_nonneg = any(x.get('k') == 'bin' and x.get('op') == '>=' and show(_strip(x.get('l'))) == show(limv) and (_strip(x.get('r')) or {}).get('cv') == 0 for x in walk(c))
+            if has_cmp and has_nonneg:
+                okc = True
+        rep.ob(clause, 'K4 guard', 'shouldStop answers true when a limit is set and elapsed >= the selected limit', okc, sh.where, '', sh.sname)
+
+
+def nonpositive_clock(fb, rep, clause):
+    """K12 (used by C05): a `go` with a clock must never degenerate into an unlimited search.  A remaining time
+    <= 0 for the side to move (the flag has fallen; graphical interfaces do send such values) must still give
+    non-negative limits - the search treats a negative limit as "no limit" and would never answer by itself."""
+    ct = fb.find1('EngineControl::computeTimeLimit')
+    if rep.need(clause, ct, 'EngineControl::computeTimeLimit') is None:
+        return
+    roles = _roles(ct)
+    if rep.need(clause, roles.get('time'), "the local holding the mover's remaining time") is None or rep.need(clause, roles.get('margin'), 'the safety margin local') is None:
+        return
+    env = {}
+    for p in ('bufferTime', 'maxTimeUsage', 'timeMaxRemainingMoves', 'timePonderHitRate', 'minTimeUsage'):
+        bd = param_bounds(fb, p)
+        if bd:
+            env[p] = bd
+    margin = roles['margin'].get('init')
+    mid = roles['margin']['id']
+
+    def subst(t):
+        if isinstance(t, dict) and t.get('k') == 'var' and t.get('id') == mid:
+            return margin
+        if isinstance(t, dict):
+            return {k: (subst(v) if isinstance(v, dict) else ([subst(x) for x in v] if isinstance(v, list) else v)) for k, v in t.items()}
+        return t
+    n = 0
+    for b, i, e in ct.events():
+        if e.get('k') == 'asg' and e.get('op') == '=' and ap(e.get('l')) in ('this.minTimeLimit', 'this.maxTimeLimit'):
+            r = _strip(e.get('r'))
+            if not (isinstance(r, dict) and r.get('k') == 'call' and cname(r) == 'clamp'):
+                continue
+            later = ct.path_avoiding((b, i), lambda ev, _l=ap(e['l']): ev is not None and ev.get('k') == 'asg' and ap(ev.get('l')) == _l, R.never)
+            if later is not None:
+                continue
+            n += 1
+            fld = ap(e['l'])[5:]
+            r = dict(r, args=[_inline(a_, _single_defs(ct), {roles['time']['id'], mid}) for a_ in r['args']])
+            tree2 = {'k': 'call', 'n': 'clamp', 'f': r.get('f'), 'args': [{'k': 'var', 'n': '#any'}, r['args'][1], subst(_strip(r['args'][2]))]}
+            env2 = dict(env)
+            env2[roles['time']['n']] = (-10 ** 7, 0)
+            env2['#any'] = (-2 ** 31, 2 ** 31 - 1)
+            try:
+                lo, hi = ieval(tree2, env2)
+                rep.ob(clause, 'K12 range', 'computeTimeLimit, clock path: %s is not negative when the remaining time is zero or negative (a negative limit means "search without limit")' % fld,
+                       lo >= 0, R.site(ct, e), 'interval of the clamped value for a remaining time in -10^7..0: [%s, %s]' % (lo, hi), ct.sname)
+            except Undecided as ex:
+                rep.broken(clause, 'interval engine (non-positive clock): %s' % ex)
+    rep.floor(clause, 'final clock-path limit definitions', n, 2)
